@@ -2484,6 +2484,11 @@ def skip_slot_truthy(check: Check, repo: Repo, rule: str = "SKIP-SLOT") -> None:
         first = closure.args.args[0].arg if closure is not None and closure.args.args else None
         if isinstance(v, ast.Constant) and v.value is None:
             continue  # the reset
+        if isinstance(v, ast.Name) and closure is not None and v.id != first:
+            # a local that is nothing but another name for the node parameter
+            defs_ = [a for a in ast.walk(closure) if isinstance(a, ast.Assign) and any(isinstance(t, ast.Name) and t.id == v.id for t in a.targets)]
+            if len(defs_) == 1 and isinstance(defs_[0].value, ast.Name) and defs_[0].value.id == first:
+                v = defs_[0].value
         truthy = (isinstance(v, ast.Name) and v.id == first and not falsy_defs) or (isinstance(v, ast.Name) and v.id == "BREAK") \
             or (isinstance(v, ast.Constant) and bool(v.value))
         ok = truthy or not truth_tests
